@@ -2,11 +2,12 @@ import Model.Bytes
 
 /-! # Model of the based sequencer (`sequencers/based/sequencer.go`, `persistent_pending_txs.go`)
 
-`GetNextBatch` + `PersistentPendingTxs`, mirroring the Go code that exists (including its defects):
-carry-over pop up to the size limit (`>`), forward scan within the drift window with the `>=` size
-test, push-back of the suffix that does not fit (scan position NOT advanced), persisted scan
-position, `LastBatchData` echoed by the caller, and the treatment of each DA retrieval outcome
-(`StatusError` stops; `NotFound`/`HeightFromFuture`/no data are skipped).
+`GetNextBatch` + `PersistentPendingTxs`, mirroring the Go code that exists: carry-over pop up to
+the size limit (`>`), forward scan within the drift window with the `>=` size test — entered only
+when the pop has emptied the carry-over —, push-back of the suffix that does not fit (the height
+counts as consumed: scan position advanced past it), persisted scan position, `LastBatchData`
+echoed by the caller, and the treatment of each DA retrieval outcome (`StatusError` and
+`StatusHeightFromFuture` stop the scan at that height; `NotFound`/no data are skipped).
 
 Modelling decisions: a queue entry holds (tx,id) pairs (the Go code keeps two parallel slices of
 equal length); numbers are `Nat` (no uint64 wrap-around); `time.Now()` of an empty pop is `0` (it
@@ -87,7 +88,7 @@ def popQueue (max : Nat) : List Entry → Nat → Nat → Popped
       ⟨p.1 ++ r.taken, r.size, r.ts, r.queue⟩
     else ⟨p.1, p.2.1, e.ts, { items := p.2.2, ts := e.ts } :: q⟩
 
-/-- the `for i, tx := range res.Data` loop (sequencer.go:182-193): (taken, size, rest) -/
+/-- the `for i, tx := range res.Data` loop (sequencer.go:188-201): (taken, size, rest) -/
 def scanItems (max : Nat) : List Item → Nat → List Item × Nat × List Item
   | [], size => ([], size, [])
   | it :: r, size =>
@@ -104,7 +105,7 @@ structure Scanned where
   pushed : Option Entry
   deriving Repr
 
-/-- `OuterLoop` (sequencer.go:163-197); fuel `drift+2` is never exhausted -/
+/-- `OuterLoop` (sequencer.go:163-205); fuel `drift+2` is never exhausted -/
 def scan (drift : Nat) (da : Nat → Fetch) (max lastDA : Nat) : Nat → Nat → Nat → Nat → Scanned
   | 0, next, size, ts => ⟨[], size, ts, next, none⟩
   | fuel+1, next, size, ts =>
@@ -114,7 +115,7 @@ def scan (drift : Nat) (da : Nat → Fetch) (max lastDA : Nat) : Nat → Nat →
       match da next with
       | .error => ⟨[], size, ts, next, none⟩
       | .empty => scan drift da max lastDA fuel (next+1) size ts
-      | .future => scan drift da max lastDA fuel (next+1) size ts
+      | .future => ⟨[], size, ts, next, none⟩
       | .ok items hts =>
         if items.isEmpty then scan drift da max lastDA fuel (next+1) size ts
         else
@@ -122,7 +123,13 @@ def scan (drift : Nat) (da : Nat → Fetch) (max lastDA : Nat) : Nat → Nat →
           if p.2.2.isEmpty then
             let r := scan drift da max lastDA fuel (next+1) p.2.1 hts
             ⟨p.1 ++ r.taken, r.size, r.ts, r.next, r.pushed⟩
-          else ⟨p.1, p.2.1, if p.1.isEmpty then ts else hts, next, some ⟨p.2.2, hts⟩⟩
+          else ⟨p.1, p.2.1, if p.1.isEmpty then ts else hts, next + 1, some ⟨p.2.2, hts⟩⟩
+
+/-- the loop condition `size < maxBytes && len(s.pendingTxs.list) == 0` (sequencer.go:165): the
+queue only changes inside the loop by the push-back, which leaves the loop, so the second conjunct
+is decided by the queue the pop left behind -/
+def scanQ (q : List Entry) (drift : Nat) (da : Nat → Fetch) (max lastDA fuel next size ts : Nat) : Scanned :=
+  if q.isEmpty then scan drift da max lastDA fuel next size ts else ⟨[], size, ts, next, none⟩
 
 /-- `coreda.SplitID`: height of an id, `none` when `len(id) ≤ 8` -/
 def splitHeight (id : Bytes) : Option Nat :=
@@ -149,7 +156,7 @@ def pushQ (q : List Entry) : Option Entry → List Entry
   | some e => q ++ [e]
   | none => q
 
-/-- `GetNextBatch` (sequencer.go:116-213) -/
+/-- `GetNextBatch` (sequencer.go:116-221) -/
 def getNextBatch (cfg : Cfg) (da : Nat → Fetch) (s : St) (r : Req) : Out :=
   if !r.idOk then ⟨s, .errInvalidId, []⟩
   else
@@ -163,13 +170,13 @@ def getNextBatch (cfg : Cfg) (da : Nat → Fetch) (s : St) (r : Req) : Out :=
       | some e =>
         let lastDA := if e > pos then e else pos
         let next := if e > pos then e + 1 else pos
-        let sc := scan cfg.drift da max lastDA (cfg.drift + 2) next p.size p.ts
+        let sc := scanQ p.queue cfg.drift da max lastDA (cfg.drift + 2) next p.size p.ts
         let q2 := pushQ p.queue sc.pushed
         ⟨{ queue := q2, pendP := some q2, scanP := some sc.next },
           (if (p.taken ++ sc.taken).isEmpty then .nil else .batch (p.taken ++ sc.taken) sc.ts),
           [.pending] ++ (if sc.pushed.isSome then [.pending] else []) ++ [.scan]⟩
     | none =>
-      let sc := scan cfg.drift da max pos (cfg.drift + 2) pos p.size p.ts
+      let sc := scanQ p.queue cfg.drift da max pos (cfg.drift + 2) pos p.size p.ts
       let q2 := pushQ p.queue sc.pushed
       ⟨{ queue := q2, pendP := some q2, scanP := some sc.next },
         (if (p.taken ++ sc.taken).isEmpty then .nil else .batch (p.taken ++ sc.taken) sc.ts),
